@@ -22,7 +22,9 @@ RULE = (
     "0..NELEMENTS-1); the number of slots equals the number of distinct abstract species (generator-side "
     "identity); constant_indexes.py (executed in an empty namespace) defines the same names with the same values; "
     "[summary] of naunet_config.toml has the same counts and the same species / alias order; naunet_enzo.h has one "
-    "A_<alias> per species and A_Table in slot order; all four back-ends agree. Non-trivial = network has a double "
+    "A_<alias> per species and A_Table in slot order; the patch's typedefs.h appends one distinct, legal field constant per species "
+    "Enzo does not know, numbered 104.. with FieldUndefined after the last, and Grid_IdentifyNaunetSpeciesFields.C looks up one declared, "
+    "unshared field per species; every IDX_ macro the generated sources subscript with is declared by naunet_macros.h; all four back-ends agree. Non-trivial = network has a double "
     "spelling, |charge| >= 2, a label, a grain, an excited species or a replacement."
 )
 ASSUMPTIONS = [
@@ -296,6 +298,18 @@ def check_case(case, tier):
             if len(spec) != nident:
                 failures.append((f"index/slot-count{suffix}", f"{method}: {len(spec)} species slots for {nident} distinct species ({sorted(n for n, _ in spec)})"))
                 break
+            # the same identifiers everywhere: every IDX_ macro a generated source subscripts with is one naunet_macros.h declares
+            declared = {n for n, _ in defs}
+            for srcf in sorted((proj.path / "src").glob("naunet_*.c*")):
+                used = set(re.findall(r"\bIDX_\w+", re.sub(r"//[^\n]*|/\*.*?\*/", "", srcf.read_text(), flags=re.S)))
+                # (#ifdef IDX_... guards of the fixed helper code name species the network need not have)
+                guarded = set(re.findall(r"^[ \t]*#[ \t]*(?:ifdef|ifndef|if[ \t]+defined\(?)[ \t]*(IDX_\w+)", srcf.read_text(), re.M))
+                stray = sorted(used - declared - guarded)
+                if stray:
+                    failures.append((f"index/source-uses-undeclared-macro{suffix}", f"{method}/{srcf.name}: {stray[:4]} used but naunet_macros.h declares {sorted(declared)[:6]}..."))
+                    break
+            if failures:
+                break
             order = [n for n, _ in sorted(spec, key=lambda t: int(t[1]))]
             # python constants
             pyf = proj.path / "python" / "pynaunet_model" / "constant_indexes.py"
@@ -360,6 +374,36 @@ def check_case(case, tier):
                 want_n = nident + len(GRACKLE) - both - 1
                 if mm is None or int(mm.group(1)) != want_n:
                     failures.append((f"index/enzo-nspecies{suffix}", f"ENZO_NSPECIES = {mm.group(1) if mm else None} but network ({nident}) + grackle (12) - shared ({both}) - electron = {want_n}"))
+                # the per-species field tables of the patch: typedefs.h appends one enumerator per species Enzo does not know to
+                # `enum field_type`; Grid_IdentifyNaunetSpeciesFields.C looks every species' field up by that enumerator
+                EnzoPatch("cpu").render(net, templates=["typedefs.h.j2", "Grid_IdentifyNaunetSpeciesFields.C.j2"], path=pd)
+                tdef = (pd / "typedefs.h").read_text()
+                # `const field_type Density = 0, ..., FieldUndefined = N;` - the USE_NAUNET branch of the conditional
+                enum_m = re.search(r"const\s+field_type\s(.*?)#else", tdef, re.S)
+                enum_body = re.sub(r"/\*.*?\*/|//[^\n]*", "", enum_m.group(1), flags=re.S) if enum_m else ""
+                enum_body = re.sub(r"^[ \t]*#[^\n]*$", "", enum_body, flags=re.M)
+                fields = [(a, int(b)) for a, b in re.findall(r"(\S+?)\s*=\s*(\d+)\s*[,;]", enum_body)]
+                added = [(a, b) for a, b in fields if b >= 104 and a != "FieldUndefined"]
+                undefined = dict(fields).get("FieldUndefined")
+                badf = [a for a, _ in added if not IDENT.match(a)]
+                if badf:
+                    failures.append((f"index/enzo-fields/illegal-identifier{suffix}", f"typedefs.h: {badf[:3]}"))
+                vals = [b for _, b in added]
+                if sorted(vals) != list(range(104, 104 + len(vals))) or undefined != 104 + len(vals):
+                    failures.append((f"index/enzo-fields/numbering{suffix}", f"typedefs.h: fields appended to the field_type constants are numbered {added[:8]} with FieldUndefined = {undefined}: not one number each from 104 on"))
+                allnames = [a for a, _ in fields]
+                if len(set(allnames)) != len(allnames):
+                    dup = sorted({a for a in allnames if allnames.count(a) > 1})
+                    failures.append((f"index/enzo-fields/duplicate-enumerator{suffix}", f"typedefs.h: {dup[:3]} declared twice among the field_type constants"))
+                ident_c = (pd / "Grid_IdentifyNaunetSpeciesFields.C").read_text()
+                looked = [x for x in re.findall(r"FindField\(\s*(\S+?)\s*,", ident_c) if "[" not in x]  # (not the loop over the table below it)
+                if len(looked) != nident:
+                    failures.append((f"index/enzo-fields/count{suffix}", f"Grid_IdentifyNaunetSpeciesFields.C looks up {len(looked)} fields for {nident} species"))
+                missing = [x for x in looked if x not in set(allnames)]
+                if missing:
+                    failures.append((f"index/enzo-fields/undeclared{suffix}", f"Grid_IdentifyNaunetSpeciesFields.C uses {missing[:3]}, which typedefs.h does not declare"))
+                if len(set(looked)) != len(looked):
+                    failures.append((f"index/enzo-fields/shared-field{suffix}", f"two species share one field: {sorted({x for x in looked if looked.count(x) > 1})[:3]}"))
                 # `naunet render --patch enzo` is a separate invocation: another interpreter, another hash seed
                 if not failures:
                     from ..proc.call import call
